@@ -1,6 +1,7 @@
 package verifsched
 
 import (
+	"os"
 	"testing"
 	"time"
 
@@ -48,6 +49,11 @@ func TestStress(t *testing.T) {
 			h, inc := RunWithWatchdog(c, m, 30*time.Second)
 			if inc != nil {
 				writeInconclusive(inc.Error())
+				if !settle(90 * time.Second) {
+					writeInconclusive("stopped: an abandoned scheduler is still alive, its hook events would pollute further cases")
+					log.close()
+					os.Exit(0)
+				}
 				rt.Skip(inc.Error())
 			}
 			mine, other := relevant(Check(c, h))
